@@ -1117,6 +1117,12 @@ func isStanzaEmptySpace(name xml.Name) bool {
 
 func (s *Session) sendResp(ctx context.Context, id string, payload xml.TokenReader, start xml.StartElement) (xmlstream.TokenReadCloser, error) {
 	c := make(chan xmlstream.TokenReadCloser)
+	// The serve loop waits for whoever registered an id to take the response or
+	// for that caller's context to end. The context it is shown ends when this
+	// call returns, whatever the reason: if the request could not be written the
+	// caller is gone although its own context may never end.
+	ctx, cancel := context.WithCancel(ctx)
+	defer cancel()
 
 	s.sentStanzaMutex.Lock()
 	s.sentStanzas[id] = tokenReadChan{
